@@ -1,3 +1,141 @@
-(* C14 placeholder while the model is validated *)
-From Coq Require Import ZArith List.
-From PCB Require Import lib.PyInt gen.Gen_program model.Program model.Renum.
+(* C14 - RENUM renumbers lines and every reference to them consistently.
+   Only statements, `exact`, Print Assumptions and non-vacuity examples here.
+
+   model/Renum.v       executable model of Program.renum + Interpreter.renum_ (with the repair fixes/D4), over model/Program.v
+   model/RenumSpec.v   the reference: which lines are renumbered, the new numbers new, new+step, ...,
+                       acceptance, the rewriting of a body seen as items, [C14_simulation_statement]
+   abs_ok              the invariant WF of C13 (state s stores exactly the lines ls)
+   Hypotheses: a WF state, line numbers < 65535 (all that store_line can create is <= 65529), no 0E byte
+   directly behind the program terminator ([tail_ok], true after any edit history: the tail is empty),
+   0 <= new, 0 <= start <= 65535 (two-byte jump numbers). *)
+From Coq Require Import ZArith List Bool Lia Sorting.Sorted.
+From PCB Require Import lib.Result lib.PyInt gen.Gen_program model.Program model.ProgramSpec model.Renum
+  model.RenumSpec proofs.Program_proofs proofs.Renum_proofs.
+Import ListNotations.
+Open Scope Z_scope.
+
+(* RENUM new,start,step on a WF state, when the arguments satisfy [accepted]: succeeds (no BASIC error, no
+   host exception such as the KeyError of D4), returns old_to_new = the lines >= start in order paired with
+   new, new+step, ...; the result state is again WF and stores exactly [renum_lines]; traps are remapped. *)
+Theorem C14_renum_accepted : forall c s ls tail tr new start step,
+  cfg_ok c -> abs_ok c s ls tail -> tail_ok tail -> Forall (fun l : line => fst l < 65535) ls ->
+  0 <= new -> 0 <= start <= 65535 -> accepted ls new start step ->
+  exists r, renum_cmd s tr (Some new) (Some start) (Some step)
+            = Ok (r, {| on_error := remap (r_o2n r) (on_error tr); gosubs := map (remap (r_o2n r)) (gosubs tr) |})
+    /\ r_o2n r = o2n_of (rn_part start ls) new step
+    /\ abs_ok c (r_prog r) (fst (renum_lines c s ls new start step)) tail
+    /\ r_reports r = reports_of (lines s) (snd (renum_lines c s ls new start step)).
+Proof. exact renum_cmd_ok. Qed.
+Print Assumptions C14_renum_accepted.
+
+(* the guards are exactly sufficient: RENUM succeeds only if step >= 1, new is above every line staying in
+   front, and the last new number is at most 65529 *)
+Theorem C14_guard_exact : forall c s ls tail tr new start step x,
+  abs_ok c s ls tail -> Forall (fun l : line => fst l < 65535) ls -> 0 <= start <= 65535 ->
+  renum_cmd s tr (Some new) (Some start) (Some step) = Ok x -> accepted ls new start step.
+Proof. exact renum_cmd_accepts_only. Qed.
+Print Assumptions C14_guard_exact.
+
+(* numbers: the lines below start keep their numbers, the others get new, new+step, ... in their original
+   order; every line keeps its offset (positions unchanged) *)
+Theorem C14_numbers : forall c s ls new start step,
+  StronglySorted Z.lt (nums ls) -> Forall (fun l : line => wf_body (snd l) = true) ls ->
+  nums (fst (renum_lines c s ls new start step))
+    = nums (keep_part start ls) ++ seqz new step (length (rn_part start ls))
+  /\ map snd (idx 0 (fst (renum_lines c s ls new start step))) = map snd (idx 0 ls).
+Proof. exact renum_lines_shape. Qed.
+Print Assumptions C14_numbers.
+
+(* order preserved: WF of the result (hence sorted listing, GOTO lands, link chain... by the C13 theorems) *)
+Theorem C14_order_preserved : forall c s ls tail tr new start step r tr',
+  cfg_ok c -> abs_ok c s ls tail -> tail_ok tail -> Forall (fun l : line => fst l < 65535) ls ->
+  0 <= new -> 0 <= start <= 65535 ->
+  renum_cmd s tr (Some new) (Some start) (Some step) = Ok (r, tr') ->
+  abs_ok c (r_prog r) (fst (renum_lines c s ls new start step)) tail
+  /\ StronglySorted Z.lt (nums (fst (renum_lines c s ls new start step))).
+Proof.
+  intros c s ls tail tr new start step r tr' Hc Ha Ht Hl Hn Hs H.
+  pose proof (renum_cmd_accepts_only c s ls tail tr new start step _ Ha Hl Hs H) as Hacc.
+  destruct (renum_cmd_ok c s ls tail tr new start step Hc Ha Ht Hl Hn Hs Hacc) as [r0 [H0 [_ [Habs _]]]].
+  rewrite H0 in H. inversion H; subst. split; [exact Habs | exact (a_sorted _ _ _ _ Habs)].
+Qed.
+Print Assumptions C14_order_preserved.
+
+(* the new number of a line: the i-th renumbered line gets new + i*step; any other number is left alone *)
+Theorem C14_new_number_renumbered : forall ls start new step i k, StronglySorted Z.lt (nums ls) ->
+  nth_error (nums (rn_part start ls)) i = Some k ->
+  new_number (o2n_of (rn_part start ls) new step) k = new + Z.of_nat i * step.
+Proof. exact new_number_renumbered. Qed.
+Print Assumptions C14_new_number_renumbered.
+Theorem C14_new_number_other : forall ls start new step k, ~ In k (nums (rn_part start ls)) ->
+  new_number (o2n_of (rn_part start ls) new step) k = k.
+Proof. exact new_number_other. Qed.
+Print Assumptions C14_new_number_other.
+
+(* traps follow their lines: an active ON ERROR / event trap line is mapped by new_number - in particular a
+   trap line in front of the renumbered range keeps its number (this raised KeyError before fixes/D4) *)
+Theorem C14_traps : forall o2n l, l <> 0 -> remap o2n (Some l) = Some (new_number o2n l).
+Proof. intros o2n l H. unfold remap, new_number. destruct (l =? 0) eqn:E; [lia | reflexivity]. Qed.
+Print Assumptions C14_traps.
+Theorem C14_traps_inactive : forall o2n, remap o2n None = None /\ remap o2n (Some 0) = Some 0.
+Proof. intros; split; reflexivity. Qed.
+Print Assumptions C14_traps_inactive.
+
+(* the scan of pass 3 over the whole program: line starts, links and line numbers are passed over, every
+   body is rewritten by rw_body, nothing else changes *)
+Theorem C14_scan_program : forall d o2n c0 tail ls, o2n_ok o2n -> tail_ok tail -> forall p bef pos,
+  0 <= c0 -> 0 <= p -> Forall (fun l : line => wf_body (snd l) = true) ls ->
+  rscan d o2n (lay c0 p ls ++ 0 :: 0 :: 0 :: tail) bef pos false false 0
+  = Ok (lay c0 p (fst (rw_prog d o2n c0 p ls bef pos)) ++ 0 :: 0 :: 0 :: tail, snd (rw_prog d o2n c0 p ls bef pos)).
+Proof. exact rscan_prog. Qed.
+Print Assumptions C14_scan_program.
+
+(* token scan soundness and reference rewriting, at item level: in a body made of string literals, comments,
+   tokens with payloads, references and plain bytes, the scan stops exactly at the references; each reference
+   to j becomes new_jump = the new number of j (unless exempt: ON ERROR GOTO 0), everything else is unchanged;
+   one event per reference *)
+Theorem C14_refs : forall d o2n its, items_ok its = true -> forall bef pos,
+  rw_body d o2n (render its) bef pos false false 0 = (render (rw_items o2n its bef), ev_items d o2n its bef pos).
+Proof. exact rw_body_items. Qed.
+Print Assumptions C14_refs.
+Theorem C14_refs_new_jump : forall o2n bef j, exempt bef j = false -> new_jump o2n bef j = new_number o2n j.
+Proof. intros o2n bef j H. unfold new_jump, new_number. rewrite H. reflexivity. Qed.
+Print Assumptions C14_refs_new_jump.
+Theorem C14_exempt_only_zero : forall bef j, j <> 0 -> exempt bef j = false.
+Proof. intros bef j H. unfold exempt. destruct (j =? 0) eqn:E; [lia | reflexivity]. Qed.
+Print Assumptions C14_exempt_only_zero.
+(* item lists render to tokeniser-shaped bodies (the hypothesis wf_body of the other theorems) *)
+Theorem C14_items_wf : forall its, items_ok its = true -> body_ok (render its) false false 0 = true.
+Proof. exact items_body_ok. Qed.
+Print Assumptions C14_items_wf.
+
+(* a reference is reported (Undefined line j in ...) iff it is not exempt and j is not a line of the program *)
+Theorem C14_reported : forall c s ls tail new start step bef j, abs_ok c s ls tail -> 0 <= j <= 65535 ->
+  reported (lines s) (o2n_of (rn_part start ls) new step) bef j = negb (exempt bef j) && negb (member j (nums ls)).
+Proof. exact reported_spec. Qed.
+Print Assumptions C14_reported.
+
+(* behaviour preservation is only stated (partial): see RenumSpec.C14_simulation_statement *)
+Definition C14_simulation_partial := C14_simulation_statement.
+
+(* non-vacuity: 10 ON ERROR GOTO 10 / 20 GOTO 20:GOTO 77 / RENUM 100,20 with the error trap on line 10
+   (the D4 witness): accepted, line 20 -> 100, the reference follows, 77 is reported, the trap stays on 10 *)
+Example C14_nonvacuous :
+  let c := {| cs := 4717; limit := 65020 |} in
+  let ops := [OStore (mk_linebuf 10 [161; 32; 167; 32; 137; 32; 14; 10; 0]);
+              OStore (mk_linebuf 20 [137; 32; 14; 20; 0; 58; 137; 32; 14; 77; 0])] in
+  let s := run c ops in
+  let ls := spec_run c ops in
+  accepted ls 100 20 10
+  /\ exists r tr', renum_cmd s {| on_error := Some 10; gosubs := [Some 20; None] |} (Some 100) (Some 20) (Some 10) = Ok (r, tr')
+     /\ r_o2n r = [(20, 100)] /\ r_reports r = [(77, 20)]
+     /\ on_error tr' = Some 10 /\ gosubs tr' = [Some 100; None]
+     /\ lines (r_prog r) = [(65536, 30); (10, 0); (100, 14)]
+     /\ fst (renum_lines c s ls 100 20 10)
+        = [(10, [161; 32; 167; 32; 137; 32; 14; 10; 0]); (100, [137; 32; 14; 100; 0; 58; 137; 32; 14; 77; 0])].
+Proof.
+  cbv zeta. split.
+  - split; [lia|]. split; [intros l Hl; vm_compute in Hl; destruct Hl as [<-|[]]; vm_compute; reflexivity|].
+    right. vm_compute. discriminate.
+  - eexists. eexists. split; [vm_compute; reflexivity|]. repeat split; vm_compute; reflexivity.
+Qed.
